@@ -81,7 +81,10 @@ class TestCaseMutation(MutationOperator):
         assert test_factory, "Required for mutation"
         if not test_factory.has_call_on_sut(chromosome.test_case):
             chromosome.test_case = backup
-            chromosome._mutation_insert()  # noqa: SLF001
+            # The insertion edits the restored test case, too; cached results of
+            # the chromosome must be invalidated for it like for any other change.
+            if chromosome._mutation_insert():  # noqa: SLF001
+                changed = True
 
         if changed:
             chromosome.changed = True
